@@ -26,6 +26,7 @@ LEVEL_TEXT = (
     ' The loss history the stopping test reads is written by the calibrator only: no in-place write through an alias lent to a sampler / loss / checkpoint writer (alias analysis of C02-R7 restricted to losses_samp).'
     ' The non-interference rule of C01 is included (verbosity reaches only prints; create_checkpoint changes no calibrator state, so the folder calibrate() writes to is the configured one).'
     " The field-plumbing rule of C04 kept to the history and the two progress counters is included (the stopping batch is part of the checkpoint as itself)."
+    " The alignment rule of C02 is included (the convergence test reads losses_samp[:n_sampled_params])."
 )
 TECHNIQUE = "finite abstract evaluation of one loop iteration over a truth table of atoms (path-sensitive, three-valued) + event-order queries on the abstract paths + formula normal form"
 
